@@ -6,6 +6,7 @@ import MoneroModel.Props.C16
 import MoneroModel.Props.C14
 import MoneroModel.Proofs.PanicsProofs
 import MoneroModel.Proofs.ExtraLen
+import MoneroModel.Proofs.PanicsTx
 open Monero Ledger
 /-! # C04 — no input can panic, hang or exhaust memory (PARTIAL: see below)
 
@@ -180,6 +181,86 @@ theorem C04_no_panic_ring_size (ins : List TxIn) :
     mixinP ins = (match ins.head? with
       | some (.toKey _ o _) => if o.length = 0 then .err else .ok (o.length - 1)
       | _ => .ok 0) := ⟨mixinP_no_panic ins, mixinP_eq ins⟩
+
+
+/-! ## `1 + inputs` and `&prefix.inputs[0]` inside the transaction decoder; the public decoders with `usize` parameters -/
+open Monero.Panics in
+/-- `Transaction::consensus_decode`, whole: the panic-explicit decoder `txP` — control flow of the Rust function written
+out (early return on `inputs == 0`, `if inputs > 0` around `&prefix.inputs[0]`, `checked_sub(1)`), calling the
+panic-explicit `RctSigPrunable` decoder in which `1 + inputs` is a checked `usize` addition — reaches no panic site on any
+byte string, and returns exactly what the model `tx` (the one the correspondence run ties to the code) returns. The
+overflow is excluded because `inputs` is the length of a vector that passed the allocation cap
+(`inputs · size_of::<TxIn>() ≤ CAP`, constants from the regenerated tables). -/
+theorem C04_no_panic_tx (b : Bytes) : (txP b).isPanic = false ∧ (txP b).toOption = tx b := by
+  rw [txP_eq]; exact ⟨ofOption_isPanic _, ofOption_toOption _⟩
+
+open Monero.Panics in
+/-- the PUBLIC function `RctSigPrunable::consensus_decode(r, rct_type, inputs, outputs, mixin)` called directly: for every
+reader content, type, output count and ring size, no panic site is reachable PROVIDED `1 + inputs` fits a `usize`; the
+precondition is needed (`C04_prunable_pre_needed`). -/
+theorem C04_no_panic_prunable (ty inputs outputs mixin : Nat) (b : Bytes) (h : 1 + inputs < 2 ^ 64) :
+    (prunableP ty inputs outputs mixin b).isPanic = false ∧
+    (prunableP ty inputs outputs mixin b).toOption = prunable ty inputs outputs mixin b := by
+  rw [prunableP_eq _ _ _ _ _ h]; exact ⟨ofOption_isPanic _, ofOption_toOption _⟩
+example : 1 + 16 < 2 ^ 64 := by decide
+
+open Monero.Panics in
+/-- … and without it the panic IS reachable through the public API: `rct_type = Full`, `inputs = usize::MAX`,
+`outputs = 0`, `mixin = 0`, empty reader evaluates `1 + inputs` before any byte is read (observed on the real library by
+the harness operation `c04_dec prunable 1 18446744073709551615 0 0 -`: "attempt to add with overflow", ringct.rs:774).
+`Transaction::consensus_decode` never passes such a value (`C04_no_panic_tx`). -/
+theorem C04_prunable_pre_needed : (prunableP 1 (2 ^ 64 - 1) 0 0 []).isPanic = true := prunableP_panics_at_max
+
+/-- the raw extra of every PARSED transaction respects the cap of the byte-vector decoder, so
+`RawExtraField::from(tx.prefix.extra.try_parse())` — `deserialize(&serialize(..)).unwrap()` — cannot panic, whatever
+the extra bytes are and whether or not parsing them reported an error (instance of
+`C04_raw_from_parsed_extra_no_panic` without a free hypothesis) -/
+theorem C04_raw_from_parsed_tx_extra_no_panic (vk : Bytes → Bool) (b : Bytes) (t : Tx) (r : Bytes) (h : tx b = some (t, r)) :
+    Extra.toRaw (Extra.tryParse vk t.pre.extra).fields = some (Extra.encFields (Extra.tryParse vk t.pre.extra).fields) := by
+  have hc : t.pre.extra.length ≤ CAP := by
+    unfold tx at h
+    obtain ⟨p, r0, hp, h⟩ := bind_some h
+    have hpe : t.pre = p := by
+      simp only [] at h
+      split at h
+      · obtain ⟨s, r1, _, h⟩ := bind_some h
+        obtain ⟨rfl, _⟩ := pure_some h; rfl
+      · split at h
+        · obtain ⟨rfl, _⟩ := pure_some h; rfl
+        · obtain ⟨bs, r1, _, h⟩ := bind_some h
+          split at h
+          · cases hh : p.ins.head? with
+            | none =>
+              rw [hh] at h
+              obtain ⟨pr, r2, _, h⟩ := bind_some h
+              obtain ⟨rfl, _⟩ := pure_some h; rfl
+            | some i0 =>
+              rw [hh] at h
+              cases i0 with
+              | gen g =>
+                obtain ⟨pr, r2, _, h⟩ := bind_some h
+                obtain ⟨rfl, _⟩ := pure_some h; rfl
+              | toKey a o k =>
+                simp only [] at h
+                split at h
+                · exact (fail_some h).elim
+                · obtain ⟨pr, r2, _, h⟩ := bind_some h
+                  obtain ⟨rfl, _⟩ := pure_some h; rfl
+          · obtain ⟨rfl, _⟩ := pure_some h; rfl
+    rw [hpe]
+    unfold prefix' at hp
+    obtain ⟨v, r1, _, hp⟩ := bind_some hp
+    obtain ⟨u, r2, _, hp⟩ := bind_some hp
+    obtain ⟨i, r3, _, hp⟩ := bind_some hp
+    obtain ⟨o, r4, _, hp⟩ := bind_some hp
+    obtain ⟨e, r5, he, hp⟩ := bind_some hp
+    obtain ⟨rfl, rfl⟩ := pure_some hp
+    have := vec_cap sizes.u8 u8 r4 e r5 he
+    have h1 : sizes.u8 = 1 := by decide
+    rw [h1] at this
+    show e.length ≤ CAP
+    omega
+  exact (C04_raw_from_parsed_extra_no_panic vk t.pre.extra hc).2
 
 /- non-vacuity: the panic-explicit vocabulary CAN panic (an unguarded slice does), the hash hypothesis is satisfiable,
 and "-1.5" is a `&str` in the sense of `Utf8` -/
